@@ -36,15 +36,15 @@ Proof. repeat split; reflexivity. Qed.
    whose shape is regenerated from the source (Gen/Forwarder.v).  For every list of results, whether or not the child
    got to send its end marker (carrying its counter, or counter+1 if it died between the increment and the send),
    whether or not the final pair follows, and the connection going away after ANY number of messages: the consumer of
-   the results pipe sees a prefix of the child's results, in order and nothing else, and the stream ends - an end
-   marker is on the pipe, or the pipe is closed (EOF). *)
+   the results pipe sees a prefix of the child's results, in order and nothing else, and the stream ends WITH AN END MARKER
+   on the pipe (closing the pipe as well is of no use to a consumer of the default in-memory results queue). *)
 Lemma C06_forwarder_shape : Persist.ForwarderProofs.good_fflags Gen.Forwarder.gen_fflags.
 Proof. repeat split; reflexivity. Qed.
 
 Theorem C06_remote_stream_is_prefix_and_ends :
   forall vs marker final cut,
     let '(o, closed) := Persist.Forwarder.forward Gen.Forwarder.gen_fflags (Persist.Forwarder.child_stream vs marker final cut) in
-    (exists j, Persist.Forwarder.results o = firstn j vs) /\ (Persist.Forwarder.ends o = true \/ closed = true).
+    (exists j, Persist.Forwarder.results o = firstn j vs) /\ Persist.Forwarder.ends o = true.
 Proof. exact (Persist.ForwarderProofs.forward_prefix_and_ends Gen.Forwarder.gen_fflags C06_forwarder_shape). Qed.
 
 (* the two regressions this rules out, as theorems about the model with the other shape *)
@@ -58,6 +58,11 @@ Theorem C06_refuted_if_the_pipe_is_closed_conditionally :
     Persist.Forwarder.forward fl (Persist.Forwarder.child_stream [] None true 1) = ([], false).
 Proof. exact Persist.ForwarderProofs.stream_never_ends_if_close_is_conditional. Qed.
 
+Theorem C06_refuted_if_the_final_pair_adds_no_marker :
+  exists fl, Persist.ForwarderFlags.final_marks fl = false /\ Persist.ForwarderFlags.closes_at_end fl = true /\
+    Persist.Forwarder.forward fl (Persist.Forwarder.child_stream [7%Z] None true 2) = ([Persist.Forwarder.ORes 7%Z], true).
+Proof. exact Persist.ForwarderProofs.stream_has_no_marker_if_the_final_pair_adds_none. Qed.
+
 Example C06_example :
   stream_after (fun a _ => fold_left (fun h e => h * 10 + fst e) a 0) true sp0 prog0 cleanup_thread
                [] false [] [mkEnq [1] []; mkEnq [2] []; mkEnq [3] []] 1 8 true CWTE
@@ -70,3 +75,4 @@ Print Assumptions C06_generated_loops_are_the_proved_ones.
 Print Assumptions C06_remote_stream_is_prefix_and_ends.
 Print Assumptions C06_refuted_if_asserts_precede_the_forwarding.
 Print Assumptions C06_refuted_if_the_pipe_is_closed_conditionally.
+Print Assumptions C06_refuted_if_the_final_pair_adds_no_marker.
